@@ -44,11 +44,15 @@ RowPart(d) ==
                    @@ [method |-> IF m = 1 THEN "wilson" ELSE "wald"])
            /\ (m = 1 /\ li = 12 /\ k <= n /\ n > 0) => \A f \in DOMAIN FrontEnds :
                  Emit(Case(FrontEnds[f], n, k, ki, li, FALSE, FALSE) @@ [method |-> "wilson"])
-  /\ \A i \in 1..NBig : \A li \in LevSel : \A m \in 1..2 : \A ki \in 1..3 : \A j \in 1..6 :
+  \* large populations: a sparse row in ascending k (2, 10, a drawn k and its mirror, n/2, n-10, n-2), so that
+  \* mirror symmetry is checked there as well
+  /\ \A i \in 1..NBig : \A li \in LevSel : \A m \in 1..2 :
         LET n == BigNs[i]
-            k == CASE j = 1 -> 2 [] j = 2 -> n - 2 [] j = 3 -> n \div 2 [] j = 4 -> 10 [] j = 5 -> n - 10 [] OTHER -> RandK(n)
-        IN Emit(Case(IF m = 1 THEN "ci_wilson" ELSE "ci_z_normal", n, k, ki, li, TRUE, TRUE)
-                @@ [method |-> IF m = 1 THEN "wilson" ELSE "wald", grp |-> "single"])
+            r == 11 + ((i * 7919 + li * 104729) % ((n \div 2) - 20))
+            ks == <<2, 10, r, n \div 2, n - r, n - 10, n - 2>> IN
+        \A ki \in 1..3 : \A j \in 1..7 :
+           Emit(Case(IF m = 1 THEN "ci_wilson" ELSE "ci_z_normal", n, ks[j], ki, li, j = 1, j = 1 /\ ki = 1)
+                @@ [method |-> IF m = 1 THEN "wilson" ELSE "wald"])
 
 Mults == <<1, 2, 3, 10, 100>>
 MultPart(d) ==
